@@ -903,11 +903,11 @@ func runC02(c c02Case) error {
 
 var c02Options = map[string]func(*vegeta.Attacker){
 	"max-connections=1": vegeta.MaxConnections(1), "max-connections=2": vegeta.MaxConnections(2), "connections=1": vegeta.Connections(1),
-	"keepalive=false": vegeta.KeepAlive(false), "http2=false": vegeta.HTTP2(false), "timeout=1h": vegeta.Timeout(time.Hour), "redirects=0": vegeta.Redirects(0),
+	"keepalive=false": vegeta.KeepAlive(false), "http2=false": vegeta.HTTP2(false), "timeout=1h": vegeta.Timeout(time.Hour), "timeout=1s": vegeta.Timeout(time.Second), "redirects=0": vegeta.Redirects(0),
 	"max-body=0": vegeta.MaxBody(0), "chunked": vegeta.ChunkedBody(true),
 }
 
-var c02OptionNames = []string{"max-connections=1", "max-connections=2", "connections=1", "keepalive=false", "http2=false", "timeout=1h", "redirects=0", "max-body=0", "chunked"}
+var c02OptionNames = []string{"max-connections=1", "max-connections=2", "connections=1", "keepalive=false", "http2=false", "timeout=1h", "timeout=1s", "redirects=0", "max-body=0", "chunked"}
 
 var c02Kinds = []string{"tick", "tick", "tick", "tick", "burst", "bad", "completehead", "waitstop", "complete", "complete", "completeerr", "consume", "consume", "consume", "stop", "pstop", "fail", "sleep"}
 
